@@ -86,6 +86,8 @@ def cpython_half():
             return rnd.choice(ALPHA + [1e-9, 1.00000001, 0.25, 4.0])
         if t == "int":
             return rnd.randint(-1, 5)
+        if t == "str":
+            return rnd.choice(["a", "b", "c"])
         if t == "arr1[real]":
             return np.array([rnd.choice(ALPHA) for _ in range(rnd.randint(0, 5))], dtype=float)
         if t == "arr1[int]":
@@ -105,6 +107,10 @@ def cpython_half():
             kwargs = {p: gen(t, p) for p, t in c.params.items()}
             if name == "t_searchsorted":
                 kwargs["g"] = np.sort(kwargs["g"])
+            if name.endswith("reshape_split"):
+                pe = [(p_, e_) for p_ in range(0, 4) for e_ in range(1, 4) if p_ * e_ == kwargs["a"].shape[0]]
+                if pe:
+                    kwargs["p"], kwargs["e"] = rnd.choice(pe)
             try:
                 status, _ = rt.check_call(reg, key, fn, None, kwargs)
             except rt.ContractViolation as e:
